@@ -7,10 +7,13 @@ import (
 	"sync"
 	"time"
 
+	"github.com/btcsuite/btcd/address/v2"
 	"github.com/btcsuite/btcd/blockchain"
 	"github.com/btcsuite/btcd/btcutil/v2"
+	"github.com/btcsuite/btcd/chaincfg/v2"
 	"github.com/btcsuite/btcd/chainhash/v2"
 	"github.com/btcsuite/btcd/mining"
+	"github.com/btcsuite/btcd/txscript/v2"
 	"github.com/btcsuite/btcd/wire/v2"
 
 	"verif/harness/internal/tla"
@@ -36,11 +39,38 @@ func commitWeight() int {
 	return (2 + 1 + 1 + blockchain.CoinbaseWitnessDataLen) + (8+1+blockchain.CoinbaseWitnessPkScriptLength)*blockchain.WitnessScaleFactor
 }
 
-// MiningSetup measures the generated coinbase and fixes the policy grid of a universe.
+// Variant is one template call made in every state (Mining.tla: Variants).
+type Variant struct {
+	Pol        int    // index into Policies
+	Pay        string // none | p2pkh | p2sh | p2wpkh
+	Clk0, Clk1 string // near | far: adjusted time at NewBlockTemplate / at UpdateBlockTime
+}
+
+var payKinds = []string{"none", "p2pkh", "p2sh", "p2wpkh"}
+
+// payAddress returns the payToAddress of a kind (nil for "none").
+func payAddress(kind string, params *chaincfg.Params) (address.Address, error) {
+	h := make([]byte, 20)
+	for i := range h {
+		h[i] = byte(0x50 + i)
+	}
+	switch kind {
+	case "p2pkh":
+		return address.NewAddressPubKeyHash(h, params)
+	case "p2sh":
+		return address.NewAddressScriptHashFromHash(h, params)
+	case "p2wpkh":
+		return address.NewAddressWitnessPubKeyHash(h, params)
+	}
+	return nil, nil
+}
+
+// MiningSetup measures the generated coinbase and fixes the policy grid and
+// the template variants of a universe.
 type MiningSetup struct {
-	CbWeight int
-	Subsidy  int64
+	CbWeight map[string]int
 	Policies []MiningPolicy
+	Variants []Variant
 }
 
 func NewMiningSetup(c *Concrete) (*MiningSetup, error) {
@@ -49,29 +79,49 @@ func NewMiningSetup(c *Concrete) (*MiningSetup, error) {
 		return nil, err
 	}
 	defer e.Close()
+	ms := &MiningSetup{CbWeight: map[string]int{}}
 	g := e.NewGenerator(MiningPolicy{MaxW: 3000000}.real())
-	t, err := g.NewBlockTemplate(nil)
-	if err != nil {
-		return nil, fmt.Errorf("template on an empty pool: %w", err)
+	for _, kind := range payKinds {
+		addr, err := payAddress(kind, e.Chain.ChainParams())
+		if err != nil {
+			return nil, err
+		}
+		t, err := g.NewBlockTemplate(addr)
+		if err != nil {
+			return nil, fmt.Errorf("template on an empty pool: %w", err)
+		}
+		ms.CbWeight[kind] = int(blockchain.GetTransactionWeight(btcutil.NewTx(t.Block.Transactions[0])))
 	}
-	cbw := int(blockchain.GetTransactionWeight(btcutil.NewTx(t.Block.Transactions[0])))
-	base := uint32(headerWeight + cbw + commitWeight())
-	return &MiningSetup{CbWeight: cbw, Subsidy: blockchain.CalcBlockSubsidy(c.H0+1, c.Params),
-		Policies: []MiningPolicy{
-			{MaxW: 3000000, MinW: 0, Prio: 0, MinFree: 1000},                // btcd-like defaults without a priority area
-			{MaxW: base + 900, MinW: 0, Prio: 0, MinFree: 0},                // room for about two small transactions
-			{MaxW: 4000000, MinW: base + 450, Prio: 200000, MinFree: 12000}, // priority area, min weight filled with low-fee transactions
-		}}, nil
+	base := uint32(headerWeight + ms.CbWeight["p2pkh"] + commitWeight())
+	ms.Policies = []MiningPolicy{
+		{MaxW: 3000000, MinW: 0, Prio: 0, MinFree: 1000},                // btcd-like defaults without a priority area
+		{MaxW: base + 900, MinW: 0, Prio: 0, MinFree: 0},                // room for about two small transactions
+		{MaxW: 4000000, MinW: base + 450, Prio: 200000, MinFree: 12000}, // priority area, min weight filled with low-fee transactions
+	}
+	ms.Variants = []Variant{
+		{0, "none", "far", "far"},
+		{1, "p2pkh", "near", "far"},
+		{2, "p2sh", "far", "near"},
+		{0, "p2pkh", "near", "near"},
+		{1, "p2wpkh", "far", "far"},
+	}
+	return ms, nil
 }
 
 func (ms *MiningSetup) cfg(c *Concrete) (defs, cfg string) {
-	var ps []string
+	var ps, vs, cw []string
 	for _, p := range ms.Policies {
 		ps = append(ps, fmt.Sprintf("[maxw |-> %d, minw |-> %d, prio |-> %d, minfree |-> %d]", p.MaxW, p.MinW, p.Prio, p.MinFree))
 	}
-	defs = fmt.Sprintf("U_Policies == << %s >>\n", strings.Join(ps, ", "))
-	cfg = fmt.Sprintf(" TxWeight <- U_TxWeight\n TxSigCost <- U_TxSigCost\n Policies <- U_Policies\n H0 = %d\n CbWeight = %d\n CommitWeight = %d\n",
-		c.H0, ms.CbWeight, commitWeight())
+	for _, v := range ms.Variants {
+		vs = append(vs, fmt.Sprintf("[pol |-> %d, pay |-> %q, clk0 |-> %q, clk1 |-> %q]", v.Pol+1, v.Pay, v.Clk0, v.Clk1))
+	}
+	for _, k := range payKinds {
+		cw = append(cw, fmt.Sprintf("%s |-> %d", k, ms.CbWeight[k]))
+	}
+	defs = fmt.Sprintf("U_Policies == << %s >>\nU_Variants == << %s >>\nU_CbWeight == [%s]\n", strings.Join(ps, ", "), strings.Join(vs, ", "), strings.Join(cw, ", "))
+	cfg = fmt.Sprintf(" TxWeight <- U_TxWeight\n TxSigCost <- U_TxSigCost\n Policies <- U_Policies\n Variants <- U_Variants\n CbWeight <- U_CbWeight\n H0 = %d\n HardDiff = %s\n CommitWeight = %d\n",
+		c.H0, tlaBool(c.BaseBits != c.Params.PowLimitBits), commitWeight())
 	return
 }
 
@@ -120,13 +170,57 @@ func seqInts(x []int64) string {
 	return "<<" + strings.Join(p, ", ") + ">>"
 }
 
-// Observe one template and render it as a TLA+ record.
-func (tc *TemplateChecker) observe(e *Env, pol int) (string, map[string]any) {
-	c := e.C
-	g := e.NewGenerator(tc.setup.Policies[pol].real())
-	t, err := g.NewBlockTemplate(nil)
+// clockAt returns the adjusted time of a clock class: "near" is one minute
+// after the tip's timestamp, "far" half an hour after it (MinDiffReductionTime
+// is twenty minutes on this network).
+func (e *Env) clockAt(class string) (time.Time, error) {
+	best := e.Chain.BestSnapshot()
+	hdr, err := e.Chain.HeaderByHash(&best.Hash)
 	if err != nil {
-		return fmt.Sprintf("[pol |-> %d, failed |-> TRUE]", pol+1), map[string]any{"policy": pol + 1, "error": err.Error()}
+		return time.Time{}, err
+	}
+	if class == "near" {
+		return hdr.Timestamp.Add(time.Minute), nil
+	}
+	return hdr.Timestamp.Add(30 * time.Minute), nil
+}
+
+func (e *Env) bitsClass(bits uint32) string {
+	switch {
+	case bits == e.C.Params.PowLimitBits:
+		return "min"
+	case bits == e.C.BaseBits:
+		return "hard"
+	}
+	return "other"
+}
+
+// Observe one template and render it as a TLA+ record.
+func (tc *TemplateChecker) observe(e *Env, vi int) (string, map[string]any) {
+	c := e.C
+	v := tc.setup.Variants[vi]
+	pol := v.Pol
+	defer e.TS.Set(time.Time{})
+	fail := func(err error) (string, map[string]any) {
+		return fmt.Sprintf("[var |-> %d, failed |-> TRUE]", vi+1), map[string]any{"variant": v, "error": err.Error()}
+	}
+	t0, err := e.clockAt(v.Clk0)
+	if err != nil {
+		return fail(err)
+	}
+	t1, err := e.clockAt(v.Clk1)
+	if err != nil {
+		return fail(err)
+	}
+	addr, err := payAddress(v.Pay, e.Chain.ChainParams())
+	if err != nil {
+		return fail(err)
+	}
+	e.TS.Set(t0)
+	g := e.NewGenerator(tc.setup.Policies[pol].real())
+	t, err := g.NewBlockTemplate(addr)
+	if err != nil {
+		return fail(err)
 	}
 	blk := btcutil.NewBlock(t.Block)
 	var sel []int64
@@ -167,13 +261,28 @@ func (tc *TemplateChecker) observe(e *Env, pol int) (string, map[string]any) {
 	} else if _, ok := blockchain.ExtractWitnessCommitment(blk.Transactions()[0]); ok {
 		hasCommit, commitOK = true, false // a commitment output the template does not report
 	}
+	// the coinbase: pays to the address, sigop cost computed by the consensus code
+	cbTx := btcutil.NewTx(t.Block.Transactions[0])
+	paid := true
+	if addr != nil {
+		want, err := txscript.PayToAddrScript(addr)
+		paid = err == nil && bytes.Equal(want, t.Block.Transactions[0].TxOut[0].PkScript)
+	}
+	cbsig, err := blockchain.GetSigOpCost(cbTx, true, nil, true, true)
+	if err != nil {
+		cbsig = -1
+	}
+	bits0 := e.bitsClass(t.Block.Header.Bits)
 	v1 := e.validateSolved(t.Block, t.Height)
-	// UpdateBlockTime / UpdateExtraNonce on copies
+	// UpdateBlockTime (after the clock moved) / UpdateExtraNonce on copies
+	e.TS.Set(t1)
 	m2 := t.Block.Copy()
 	var v2, v3 error
+	bits1 := "other"
 	if err := g.UpdateBlockTime(m2); err != nil {
 		v2 = err
 	} else {
+		bits1 = e.bitsClass(m2.Header.Bits)
 		v2 = e.validateSolved(m2, t.Height)
 	}
 	m3 := t.Block.Copy()
@@ -185,7 +294,7 @@ func (tc *TemplateChecker) observe(e *Env, pol int) (string, map[string]any) {
 			v3 = fmt.Errorf("UpdateExtraNonce did not change the coinbase script")
 		}
 	}
-	desc := map[string]any{"policy": pol + 1, "selected": sel, "fees": t.Fees, "sigops": t.SigOpCosts, "coinbase_value": cbv, "weight": weight,
+	desc := map[string]any{"variant": v, "policy": pol + 1, "bits": bits0, "bits_after_update": bits1, "coinbase_sigop_cost": cbsig, "selected": sel, "fees": t.Fees, "sigops": t.SigOpCosts, "coinbase_value": cbv, "weight": weight,
 		"has_commitment": hasCommit, "commitment_ok": commitOK, "foreign_tx": foreign}
 	for k, err := range map[string]error{"valid": v1, "valid_after_time": v2, "valid_after_nonce": v3} {
 		if err != nil {
@@ -195,16 +304,17 @@ func (tc *TemplateChecker) observe(e *Env, pol int) (string, map[string]any) {
 	if selfTest == "tmpl-fee" && len(t.Fees) > 1 {
 		t.Fees[1]++
 	}
-	rec := fmt.Sprintf("[pol |-> %d, failed |-> FALSE, sel |-> %s, fees |-> %s, sigops |-> %s, cbextra |-> %d, weight |-> %d, sigtotal |-> %d, hascommit |-> %s, commitok |-> %s, valid |-> %s, validtime |-> %s, validnonce |-> %s, height |-> %d]",
-		pol+1, seqInts(sel), seqInts(t.Fees), seqInts(t.SigOpCosts), cbv-blockchain.CalcBlockSubsidy(t.Height, c.Params), weight, sigtotal, b2s(hasCommit), b2s(commitOK), b2s(v1 == nil), b2s(v2 == nil), b2s(v3 == nil), t.Height)
+	rec := fmt.Sprintf("[var |-> %d, failed |-> FALSE, cbsig |-> %d, paid |-> %s, bits0 |-> %q, bits1 |-> %q, sel |-> %s, fees |-> %s, sigops |-> %s, cbextra |-> %d, weight |-> %d, sigtotal |-> %d, hascommit |-> %s, commitok |-> %s, valid |-> %s, validtime |-> %s, validnonce |-> %s, height |-> %d]",
+		vi+1, cbsig, b2s(paid), bits0, bits1, seqInts(sel), seqInts(t.Fees), seqInts(t.SigOpCosts), cbv-blockchain.CalcBlockSubsidy(t.Height, c.Params), weight, sigtotal, b2s(hasCommit), b2s(commitOK), b2s(v1 == nil), b2s(v2 == nil), b2s(v3 == nil), t.Height)
 	return rec, desc
 }
 
 // OnState is called by the walker the first time a spec state is reached with
 // a matching real node.
 func (tc *TemplateChecker) OnState(e *Env, n *tlc.Node, s *SpecState) error {
-	for pol := range tc.setup.Policies {
-		rec, desc := tc.observe(e, pol)
+	for vi := range tc.setup.Variants {
+		pol := tc.setup.Variants[vi].Pol
+		rec, desc := tc.observe(e, vi)
 		if f, _ := desc["foreign_tx"].(bool); f {
 			tc.ctx.Violation("template:foreign-tx", fmt.Sprintf("universe %s: template contains a transaction that is not pooled: %v", tc.m.U.Name, desc),
 				map[string]any{"universe": tc.m.U, "spec_state": n.State.Go(), "path": pathLabels(tc.m.G, n)})
